@@ -10,6 +10,8 @@ conditions and user-placed entities by prototype and tile.  Bodies with local me
 part only visible over ticks (each call site must own its cell)."""
 from __future__ import annotations
 
+import re
+
 from .. import gen, lang
 from ..rng import Chooser
 from . import geom
@@ -19,6 +21,9 @@ from .twin import (Twin, base_group, compare_free_running, compare_obs, has_know
                    inline_calls, observe)
 
 PROP = "C15"
+_RE_FUNC = re.compile(r"^func (\w+)\(")
+_RE_DESC_LINE = re.compile(r"^\[[^\]:]*:(\d+)\]")
+_RE_INLINED = re.compile(r"^(.*?)__(f\d+)c\d+(?:__.*)?$")
 
 
 def gen_case(ch: Chooser, tier: str = "quick") -> dict:
@@ -257,6 +262,12 @@ def run_case(case: dict) -> dict:
         res["status"] = "invalid"
         res["invalid"] = str(r)
         return res
+    if not gen.in_claimed_domain(tw_stmts, lit_decls_const=True):
+        # a literal argument makes the callee's arithmetic compile-time arithmetic: outside the
+        # domain where folders and combinators agree (C11, not claimed) nothing is judged
+        res["status"] = "invalid"
+        res["invalid"] = "outside-claimed-domain"
+        return res
     src_a, src_b = lang.pprogram(stmts), lang.pprogram(tw_stmts)
     res["sources"] = {"calls": src_a, "inlined": src_b}
     res["source"] = src_a
@@ -297,6 +308,29 @@ def run_case(case: dict) -> dict:
         if it.places:
             geom.check_user_entities(wa, it.places, res)
             probe(res, "placing_body")
+        # Locals of different functions may share a name (two helpers each with a `t2`): anchors are
+        # grouped by (name, declaring function) - in the call build the function is the one whose
+        # body contains the anchor's source line, in the inlined twin the renamer recorded it.
+        func_of_line: dict = {}
+        cur = None
+        for ln, text in enumerate(src_a.split("\n"), 1):
+            m_ = _RE_FUNC.match(text)
+            if m_:
+                cur = m_.group(1)
+            if cur is not None:
+                func_of_line[ln] = cur
+            if text.startswith("}"):
+                cur = None
+
+        def g_call(name, ent):
+            m_ = _RE_DESC_LINE.match(ent.desc or "")
+            fn = func_of_line.get(int(m_.group(1))) if m_ else None
+            return f"{name}@{fn}" if fn else base_group(name)
+
+        def g_inl(name, _ent):
+            m_ = _RE_INLINED.match(name)
+            return f"{m_.group(1)}@{m_.group(2)}" if m_ else base_group(name)
+
         vals = input_inits(case)
         for si, step in enumerate([{}] + list(case["history"])):
             vals.update({k: v for k, v in step.items() if not k.startswith("__")})
@@ -306,7 +340,7 @@ def run_case(case: dict) -> dict:
                 # `Signal x = 4;` is a declared circuit input, the call's argument a literal)
                 res["ticks"] += 2 * compare_free_running(
                     tw, res, {"step": si, "inputs": dict(vals)}, "call-differs-from-inlining",
-                    group=base_group, first_may_expose_fewer=True)
+                    group=base_group, first_may_expose_fewer=True, group_ents=(g_call, g_inl))
                 continue
             ts = tw.settle_all()
             res["ticks"] += sum(t or 0 for t in ts)
@@ -314,7 +348,8 @@ def run_case(case: dict) -> dict:
                 if (ts[0] is None) != (ts[1] is None):
                     raise Violation("call-differs-from-inlining", {"what": "settling", "step": si})
                 break
-            oa, ob = observe(wa, tw.obs[0], base_group), observe(wb, tw.obs[1], base_group)
+            oa, ob = (observe(wa, tw.obs[0], base_group, g_call),
+                      observe(wb, tw.obs[1], base_group, g_inl))
             compare_obs(oa, ob, res, {"step": si, "inputs": dict(vals)}, "call-differs-from-inlining",
                         first_may_expose_fewer=True)
         res["sig"] = [skeleton(stmts), net_signature(wa), sorted(res["fired"])]
